@@ -17,6 +17,7 @@ import (
 
 	"github.com/gofiber/utils/v2"
 	"github.com/google/uuid"
+	"github.com/valyala/fasthttp"
 )
 
 // routeParser holds the path segments and param names
@@ -150,14 +151,23 @@ func RoutePatternMatch(path, pattern string, cfg ...Config) bool {
 
 	patternPretty := []byte(pattern)
 
+	// The path is normalized like the path of a request (see configDependentPaths)
+	if config.UnescapePath {
+		path = string(fasthttp.AppendUnquotedArg(nil, utils.UnsafeBytes(path)))
+	}
 	// Case-sensitive routing, all to lowercase
 	if !config.CaseSensitive {
 		patternPretty = utils.ToLowerBytes(patternPretty)
 		path = utils.ToLower(path)
 	}
 	// Strict routing, remove trailing slashes
-	if !config.StrictRouting && len(patternPretty) > 1 {
-		patternPretty = utils.TrimRight(patternPretty, '/')
+	if !config.StrictRouting {
+		if len(patternPretty) > 1 {
+			patternPretty = utils.TrimRight(patternPretty, '/')
+		}
+		if len(path) > 1 {
+			path = utils.TrimRight(path, '/')
+		}
 	}
 
 	parser, _ := routerParserPool.Get().(*routeParser) //nolint:errcheck // only contains routeParser
